@@ -89,6 +89,9 @@ def _cases(tier):
             cases.append({"s": x, "pos": pos, "fmt": "black"})
             if len(x) <= 1:
                 cases.append({"s": x, "pos": pos, "fmt": "noblack"})
+                # the same literal under two layers of redundant parentheses
+                cases.append({"s": x, "pos": pos, "fmt": "black", "layers": 2})
+                cases.append({"s": x, "pos": pos, "fmt": "noblack", "layers": 2})
     b3 = []
     for k in range(0, 4):
         b3 += [b"".join(t) for t in itertools.product(BYTES, repeat=k)]
@@ -221,6 +224,8 @@ def _site(i, c):
         v = _val(c)
         h = len(v) // 2
         lit = "(\n            %r\n            %r\n        )" % (v[:h], v[h:])
+        if c.get("layers") == 2:
+            lit = "(" + lit + ")"
         if pos == "parins":
             body = "assert [%s, 'new', 'tail'] == snapshot(\n        [\n        %s,\n        'tail',\n        ]\n    )" % (r, lit)
         elif pos == "pardel":
